@@ -136,6 +136,25 @@ impl<'ast> Visit<'ast> for LoopFinder {
                 ));
             }
         }
+        // D54: for PAT in EXPR { ... } over a vector handed over by value (EXPR a call or a path; no `continue`, no label)
+        if let syn::Pat::Ident(_) = &*e.pat {
+            let by_value = matches!(&*e.expr, syn::Expr::Path(_))
+                || matches!(&*e.expr, syn::Expr::MethodCall(m) if !["iter", "iter_mut", "enumerate", "rev", "drain", "copied", "into_iter", "skip", "take", "flatten"].contains(&m.method.to_string().as_str()))
+                || matches!(&*e.expr, syn::Expr::Call(_));
+            if by_value && e.label.is_none() {
+                let mut cf = OwnContinueFinder::default();
+                cf.visit_block(&e.body);
+                if !cf.found {
+                    let p0 = e.pat.span().byte_range();
+                    let ex = e.expr.span().byte_range();
+                    let for_kw = e.for_token.span().byte_range();
+                    self.vd.push(format!(
+                        "{{\"rule\":\"D54\",\"call\":[{},{}],\"pat\":[{},{}],\"expr\":[{},{}]}}",
+                        for_kw.start, b.start + 1, p0.start, p0.end, ex.start, ex.end
+                    ));
+                }
+            }
+        }
         // D45: for PAT in V.drain(..) { ... }   (the whole vector is drained front to back)
         if let syn::Expr::MethodCall(dr) = &*e.expr {
             if dr.method == "drain" && dr.args.len() == 1 && e.label.is_none() {
@@ -776,6 +795,32 @@ impl<'ast> Visit<'ast> for LoopFinder {
                                 self.vd.push(format!(
                                     "{{\"rule\":\"D11\",\"call\":[{},{}],\"recv\":[{},{}],\"pat\":[{},{}],\"body\":[{},{}],\"ty\":[{},{}]}}",
                                     call.start, call.end, recv.start, recv.end, pat.start, pat.end, body.start, body.end, tf.start, tf.end
+                                ));
+                            }
+                        }
+                    }
+                }
+            }
+        }
+        // D53: X.iter().enumerate().for_each(|(I, P)| BODY)
+        if e.method == "for_each" && e.args.len() == 1 {
+            if let (syn::Expr::Closure(c), syn::Expr::MethodCall(en)) = (&e.args[0], &*e.receiver) {
+                if en.method == "enumerate" && en.args.is_empty() && c.inputs.len() == 1 {
+                    if let (syn::Expr::MethodCall(it), syn::Pat::Tuple(pt)) = (&*en.receiver, &c.inputs[0]) {
+                        if it.method == "iter" && it.args.is_empty() && pt.elems.len() == 2
+                            && matches!(pt.elems[0], syn::Pat::Ident(_)) && matches!(pt.elems[1], syn::Pat::Ident(_)) {
+                            let mut ef = EscapeFinder::default();
+                            ef.visit_expr(&c.body);
+                            if ef.escapes == 0 {
+                                let call = e.span().byte_range();
+                                let recv = it.receiver.span().byte_range();
+                                let p0 = pt.elems[0].span().byte_range();
+                                let p1 = pt.elems[1].span().byte_range();
+                                let body = c.body.span().byte_range();
+                                let is_block = matches!(&*c.body, syn::Expr::Block(_));
+                                self.vd.push(format!(
+                                    "{{\"rule\":\"D53\",\"call\":[{},{}],\"recv\":[{},{}],\"idx\":[{},{}],\"pat\":[{},{}],\"body\":[{},{}],\"is_block\":{}}}",
+                                    call.start, call.end, recv.start, recv.end, p0.start, p0.end, p1.start, p1.end, body.start, body.end, is_block
                                 ));
                             }
                         }
